@@ -1320,6 +1320,11 @@ func (h *history) runFan(key func(b int) string) {
 		h.s.exec("seq", h.id, "back", "0", "1")
 		h.s.exec("min", h.id)
 		h.s.exec("max", h.id)
+		// bounded walks at every fan-out (a count that is smaller than, equal to and larger than the fan-out)
+		h.s.exec("seq", h.id, "topk", strconv.Itoa(1+r.Intn(4)), "0", "1")
+		h.s.exec("seq", h.id, "botk", strconv.Itoa(1+r.Intn(4)), "0", "1")
+		h.s.exec("seq", h.id, "topk", strconv.Itoa(len(h.order)+r.Intn(2)), "0", "1")
+		h.s.exec("seq", h.id, "botk", strconv.Itoa(len(h.order)+r.Intn(2)), "0", "1")
 		for _, b := range boundaryBytes {
 			h.s.exec("get", h.id, key(b))
 		}
